@@ -2,9 +2,10 @@
 # Builds the harness binaries (plain, -race, -asan) from files on disk only.
 export GOFLAGS=-mod=mod GOPROXY=off GOSUMDB=off GOTOOLCHAIN=local
 set -e
-mkdir -p /verif/bin /verif/work /verif/evidence /verif/replay
-cd /verif/harness
-go build -tags verif -o /verif/bin/verifd ./cmd/verifd
-go build -tags verif -race -o /verif/bin/verifd.race ./cmd/verifd
-go build -tags verif -asan -o /verif/bin/verifd.asan ./cmd/verifd
+ROOT=$(dirname "$(readlink -f "$0")")
+mkdir -p $ROOT/bin $ROOT/work $ROOT/evidence $ROOT/replay
+cd $ROOT/harness
+go build -tags verif -o $ROOT/bin/verifd ./cmd/verifd
+go build -tags verif -race -o $ROOT/bin/verifd.race ./cmd/verifd
+go build -tags verif -asan -o $ROOT/bin/verifd.asan ./cmd/verifd
 echo setup ok
